@@ -27,6 +27,19 @@ Theorem C09_alias_not x : norm (Un _ _ _ _ U_T_KW_NOT x) = norm (Un _ _ _ _ U_T_
 Proof. split; reflexivity. Qed.
 Print Assumptions C09_alias_not.
 
+(* ... and take the same shift / reduce decision against every other operator, whichever side they stand on: in every
+   context the keyword form groups as its symbolic form does (over the table regenerated from parser.y). *)
+Definition unalias_b (o : bop) : bop := match o with B_T_KW_AND => B_T_BOOL_AND | B_T_KW_OR => B_T_BOOL_OR | o => o end.
+Definition unalias_u (u : uop) : uop := match u with U_T_KW_NOT => U_T_EXCLAM | u => u end.
+Definition unalias_p (p : pending) : pending := match p with PB o => PB (unalias_b o) | PU u => PU (unalias_u u) | PIte => PIte end.
+Definition unalias_c (c : cont) : cont := match c with CB o => CB (unalias_b o) | c => c end.
+Theorem C09_alias_same_grouping (p : pending) (c : cont) : gen_shifts p c = gen_shifts (unalias_p p) (unalias_c c).
+Proof.
+  destruct p as [o|u|]; destruct c as [o'|p'| | |];
+  try destruct o; try destruct u; try destruct o'; try destruct p'; vm_compute; reflexivity.
+Qed.
+Print Assumptions C09_alias_same_grouping.
+
 (* Renaming: under any injective renaming of identifiers every use keeps its declaration (and stays unknown if it was). *)
 Theorem C09_renaming_keeps_bindings : forall (s : name -> name), (forall a b, s a = s b -> a = b) -> forall its : list item,
   fst (walk (size (rename s its)) (rename s its) [empty_frame]) = fst (walk (size its) its [empty_frame]).
